@@ -6,7 +6,9 @@ Property theorems only. `Props/C07Doc.lean` proves `parse_render_type_system_doc
 which never write the optional leading `&` of an `implements` list, `|` of a union member list and `|` of a
 directive-location list. The chain was re-proved for the renderings that DO write them (`DocParseL.rTsDoc`, namespace
 `NitroVerif.DocParseL`, `Lemmas/GqlPrintOwnLead*.lean`: `"&"?` / `"|"?` of the grammar now succeed); this file states the
-result as a C07 theorem. Everything else (well-formedness `WFTsItem`, trivia `Ws`, positions) is as in `Props/C07Doc.lean`.
+result as a C07 theorem. Everything else (well-formedness `WFTsItem`, trivia `Ws`, positions) is as in `Props/C07Doc.lean`;
+`WFTsItem`, not `WFTsItemF`: the bare `interface I` of `parse_render_type_system_document_full` is not covered here. A document
+that writes the leading separator in some lists and not in others is covered by neither theorem (OPEN block of `Props/C07.lean`).
 -/
 namespace NitroVerif.C07
 open NitroVerif.Peg NitroVerif.Build NitroVerif.Gen NitroVerif.Gql NitroVerif.ValueParse NitroVerif.TypeParse
@@ -17,7 +19,8 @@ open NitroVerif.DocParse
     leading separator of EVERY non-empty `implements` list (`implements & A & B`), union member list (`= | A | B`) and
     directive-location list (`on | A | B`), with arbitrary trivia after the separator too, returns exactly the document,
     every position being the line/column of the first character of the corresponding token (`DocParseL.wpTsDoc`). Together
-    with `parse_render_type_system_document` (no leading separator anywhere) both spellings the grammar admits are covered. -/
+    with `parse_render_type_system_document` (no leading separator anywhere) both spellings the grammar admits are covered,
+    each used uniformly throughout a document (not mixed). -/
 theorem parse_render_type_system_document_lead (τ : Trivia) (hτ : ∀ q, Ws (τ q)) (doc : List TsItem) (hne : doc ≠ [])
     (hwf : ∀ d ∈ doc, WFTsItem d) :
     parseTs (DocParseL.rTsDoc τ doc) = .ok (DocParseL.wpTsDoc τ (DocParseL.rTsDoc τ doc) doc) :=
